@@ -363,6 +363,10 @@ def task(arg):
 
 def run(ctx):
     import psutil
+    from vf.simk import calibrate
+    binding = calibrate.run()
+    if binding["liveness_mismatches"] or binding["roundtrip_mismatches"]:
+        raise RuntimeError("environment model (simk) disagrees with this kernel: %r" % (binding,))
     seed = ctx.seed
     ops = build_ops(psutil)
     bound_default = 1
@@ -406,7 +410,7 @@ def run(ctx):
                 "kernel under one fault plan (<= bound deviations from {vanish, zombie, EACCES, EPERM} at a chosen "
                 "OS access of the process the access refers to); distinct_nontrivial = number of distinct "
                 "(operation, first deviation kind, outcome class) triples observed",
-        "exhaustive": True,
+        "exhaustive": True, "simk_binding": binding,
         "bound": "all single deviations at every access of every operation; all pairs (any first, any later second) "
                  + ("for every operation" if ctx.thorough else "for 9 short operations"),
         "operations": len(ops),
